@@ -22,6 +22,7 @@ class Runner:
                                   stderr=subprocess.DEVNULL, text=True, bufsize=1 << 20)
         self.n = 0
         self.record = record
+        self.new_types = {}   # program -> instantiations of its (generic) contract type built by `new()` during the calls so far
 
     def batch(self, cmds):
         """Executes the commands in order; returns the observations in order."""
@@ -50,6 +51,8 @@ class Runner:
                 if "harness_error" in r:
                     raise HarnessError(f"{r['harness_error']} on {json.dumps(c)[:400]}")
                 out.append(r)
+                if r.get("new_types"):
+                    self.new_types.setdefault(c.get("prog"), set()).update(r["new_types"])
                 if self.record is not None:
                     self.record.write(json.dumps({"cmd": c, "obs": r}, ensure_ascii=False) + "\n")
             t.join()
